@@ -448,6 +448,22 @@ namespace
         }
     };
 
+    // errtsv: like errts with explicit capture options; additionally logs whether the activation back trace
+    // carries captured input values (v=1) - the part of a NodeError that depends on ErrorCaptureOptions
+    struct HErrMsgV
+    {
+        static constexpr auto name = "h_err_msg_v";
+        static void eval(NodeView node, DateTime now, Scalar<"lbl", Int> lbl, In<"e", TS<NodeError>> e, Out<TS<Int>> out)
+        {
+            const auto b   = e.base().value().as_bundle();
+            const auto msg = b.at("error_msg").checked_as<Str>();
+            const std::string bt{b.at("activation_back_trace").checked_as<Str>()};
+            logf("X " + lbl_of(node) + " " + std::to_string(us(now)) + " " + std::string(msg) + " v=" +
+                 (bt.find("value=") != std::string::npos ? "1" : "0") + (std::getenv("HGV_BT") ? " bt=<" + bt + ">" : ""));
+            out.set(Int{1});
+        }
+    };
+
     // ------------------------------------------------------------------ interpreter
     using P = Port<TS<Int>>;
     struct Env
@@ -632,6 +648,12 @@ namespace
         {
             auto err = exception_time_series(arg(0));
             env.ports.emplace(key, wire<HErrMsg>(w, lbl, err));
+        }
+        else if (n.kind == "errtsv")
+        {
+            auto err = exception_time_series(arg(0), ErrorCaptureOptions{.trace_back_depth = static_cast<std::size_t>(to_i(n.args.at(1))),
+                                                                         .capture_values   = to_i(n.args.at(2)) != 0});
+            env.ports.emplace(key, wire<HErrMsgV>(w, lbl, err));
         }
         else if (n.kind == "fbsrc")
         {
